@@ -1134,6 +1134,11 @@ class LiveRun:
                 fw.add_client_control(self.clients[cs.get("client", 0)], backtest.scripted_control_class(True), spec=cs)
             else:
                 fw.add_trading_control(backtest.scripted_control_class(False), spec=cs)
+        self.middlewares = []
+        for mw in sc.get("middlewares", ()):
+            smw = backtest.ScriptMiddleware(self, mw)
+            fw.add_market_middleware(smw)
+            self.middlewares.append(smw)
         Agent = live_agent_class()
         self.agents = []
         missing = set(sc.get("missing_after_restart") or []) if not first else set()
